@@ -139,8 +139,8 @@ func TestSim(t *testing.T) {
 				stuck = 0
 			}
 			last = cur
-			if stuck >= 20 {
-				fmt.Fprintln(os.Stderr, "SIM-WATCHDOG: no driver progress for 10s real time; goroutine dump follows")
+			if stuck >= 120 {
+				fmt.Fprintln(os.Stderr, "SIM-WATCHDOG: no driver progress for 60s real time; goroutine dump follows")
 				pprof.Lookup("goroutine").WriteTo(os.Stderr, 2)
 				os.RemoveAll(logDir)
 				os.Exit(3)
